@@ -166,30 +166,27 @@ theorem Core.of_dead {cur limit : Nat} {det : Option ConfDetails} {n : ConfNtfn}
   ⟨h1, h2, h3, fun h => by simp [h4] at h, fun _ => h5, fun h => by simp [h4] at h⟩
 
 /-- `CancelConf` removes the client from the queue it is in -/
-theorem cancel_queue {cur limit : Nat} {det : Option ConfDetails} {n : ConfNtfn}
-    (h : Core cur limit det n) (hl : n.live = true) :
-    (match det with
-     | some d => delH (d.height + n.numConfs - 1) n.queuedAt
-     | none => n.queuedAt) = [] := by
+theorem cancelled_core {cur limit : Nat} {det : Option ConfDetails} {n : ConfNtfn}
+    (h : Core cur limit det n) (hl : n.live = true) : Core cur limit det (n.cancelled det) := by
   obtain ⟨h1, h2, h3, h4, h5, h6⟩ := h
   have := h6 hl
+  refine Core.of_dead (by simpa [ConfNtfn.cancelled] using h1) (by simpa [ConfNtfn.cancelled] using h2)
+    (by simpa [ConfNtfn.cancelled] using h3) (by simp [ConfNtfn.cancelled]) ?_
   cases det with
-  | none => exact this.2
+  | none => simpa [ConfNtfn.cancelled] using this.2
   | some d =>
-    simp only at this ⊢
+    simp only at this
     cases hdd : n.dispatched with
-    | true => rw [this.1 hdd, delH_nil]
-    | false => rw [(this.2 hdd).1, delH_self]
+    | true => simp [ConfNtfn.cancelled, this.1 hdd, delH_nil]
+    | false => simp [ConfNtfn.cancelled, (this.2 hdd).1, delH_self]
 
 /-- the per-client part of `handleConfDetailsAtTip` (new height `cur + 1`) -/
-theorem atTip_core {cur limit : Nat} {n : ConfNtfn} (blk i : Nat)
+theorem tipped_core {cur limit : Nat} {n : ConfNtfn} (blk i : Nat)
     (h : Core cur limit none n) (hl : n.live = true) :
-    Core cur limit (some ⟨cur + 1, blk, i⟩)
-      { n with negConf := n.negConf.drop 1,
-               queuedAt := addH (cur + 1 + n.numConfs - 1) n.queuedAt } := by
+    Core cur limit (some ⟨cur + 1, blk, i⟩) (n.tipped (cur + 1)) := by
   obtain ⟨h1, h2, h3, h4, h5, h6⟩ := h
   obtain ⟨hd, hq⟩ := h6 hl
-  simp [Core, h1, h2, h3, h4, hl, hd, hq, addH_nil]; omega
+  simp [ConfNtfn.tipped, Core, h1, h2, h3, h4, hl, hd, hq, addH_nil]; omega
 
 /-- at maturity every live client has been dispatched -/
 theorem mature_dispatched {cur limit : Nat} {d : ConfDetails} {n : ConfNtfn}
@@ -201,14 +198,13 @@ theorem mature_dispatched {cur limit : Nat} {d : ConfDetails} {n : ConfNtfn}
   | true => exact ⟨rfl, hd1 hdd⟩
   | false => have := (hd2 hdd).2; omega
 
-theorem mature_core {cur limit : Nat} {d : ConfDetails} {n : ConfNtfn}
+theorem matured_core {cur limit : Nat} {d : ConfDetails} {n : ConfNtfn}
     (hc : Chan n) (h : Core cur limit (some d) n) (hl : n.live = true)
-    (hm : d.height + limit ≤ cur + 1) :
-    Core cur limit none { n.sendDone with live := false } := by
+    (hm : d.height + limit ≤ cur + 1) : Core cur limit none n.matured := by
   obtain ⟨_, hq⟩ := mature_dispatched h hl hm
   obtain ⟨h1, h2, h3, h4, h5, h6⟩ := h
   obtain ⟨c1, c2, c3, c4⟩ := hc (h4 hl)
-  unfold ConfNtfn.sendDone
+  unfold ConfNtfn.matured ConfNtfn.sendDone
   simp [Core, h1, h2, h3, c4, hq]
 
 /-- a client that is not live is not touched by the details -/
@@ -216,15 +212,6 @@ theorem Core.dead {cur cur' limit : Nat} {det det' : Option ConfDetails} {n : Co
     (h : Core cur limit det n) (hl : n.live = false) : Core cur' limit det' n := by
   obtain ⟨h1, h2, h3, h4, h5, h6⟩ := h
   exact ⟨h1, h2, h3, h4, h5, fun hl' => by simp [hl] at hl'⟩
-
-/-- the three passes of `NotifyHeight(cur + 1)` over one client -/
-def notifyN (d : ConfDetails) (height : Nat) (n : ConfNtfn) : ConfNtfn :=
-  let n1 := if n.live then
-      (if d.height + n.numConfs - 1 < height then n
-       else n.sendUpdate (d.height + n.numConfs - 1 - height) d.height)
-    else n
-  let n2 := if n1.queuedAt.contains height && !n1.dispatched then n1.sendConfirmed d else n1
-  { n2 with queuedAt := delH height n2.queuedAt }
 
 theorem sendUpdate_fields (n : ConfNtfn) (l h : Nat) (hu : n.updates = []) (hn : 1 ≤ n.numConfs) :
     (n.sendUpdate l h).stuck = n.stuck ∧ (n.sendUpdate l h).numConfs = n.numConfs ∧
@@ -237,62 +224,73 @@ theorem sendUpdate_fields (n : ConfNtfn) (l h : Nat) (hu : n.updates = []) (hn :
   · have : ¬ (n.numConfs ≤ 0) := by omega
     simp [hu, this]
 
-theorem notifyN_core {cur limit : Nat} {d : ConfDetails} {n : ConfNtfn}
-    (hc : Chan n) (h : Core cur limit (some d) n) :
-    Core (cur + 1) limit (some d) (notifyN d (cur + 1) n) := by
+/-- second and third pass of `NotifyHeight(cur + 1)` over one client -/
+theorem confirm_unqueue_core {cur limit : Nat} {d : ConfDetails} {n : ConfNtfn}
+    (h : Core cur limit (some d) n) (hc : n.closed = false → n.confirmed = []) :
+    Core (cur + 1) limit (some d) ((n.confirmAt d (cur + 1)).unqueue (cur + 1)) := by
+  obtain ⟨h1, h2, h3, h4, h5, h6⟩ := h
+  unfold ConfNtfn.confirmAt ConfNtfn.unqueue
   cases hl : n.live with
   | false =>
-    obtain ⟨h1, h2, h3, h4, h5, h6⟩ := h
     have hq := h5 hl
-    simp [notifyN, hl, hq, delH_nil, Core, h1, h2, h3]
+    simp [hl, hq, delH_nil, Core, h1, h2, h3]
   | true =>
-    obtain ⟨h1, h2, h3, h4, h5, h6⟩ := h
-    obtain ⟨c1, c2, c3, c4⟩ := hc (h4 hl)
+    have c2 := hc (h4 hl)
     obtain ⟨hd1, hd2⟩ := h6 hl
-    -- first pass
-    have hn1 : ∃ n1 : ConfNtfn, (if n.live then
-        (if d.height + n.numConfs - 1 < cur + 1 then n
-         else n.sendUpdate (d.height + n.numConfs - 1 - (cur + 1)) d.height) else n) = n1 ∧
-        n1.stuck = n.stuck ∧ n1.numConfs = n.numConfs ∧ n1.live = n.live ∧ n1.closed = n.closed ∧
-        n1.queuedAt = n.queuedAt ∧ n1.dispatched = n.dispatched ∧ n1.confirmed = n.confirmed := by
-      refine ⟨_, rfl, ?_⟩
-      simp only [hl, ↓reduceIte]
-      split
-      · simp [hl]
-      · have := sendUpdate_fields n (d.height + n.numConfs - 1 - (cur + 1)) d.height c1 h2
-        simpa [hl] using this
-    obtain ⟨n1, hn1e, f1, f2, f3, f4, f5, f6, f7⟩ := hn1
-    unfold notifyN
-    simp only [hn1e]
     cases hdd : n.dispatched with
     | true =>
       have hq := hd1 hdd
-      simp [f5, f6, hdd, hq, delH_nil, Core, f1, f2, f3, f4, h1, h2, h3, h4, hl]
+      simp [hdd, hq, delH_nil, Core, h1, h2, h3, h4, hl]
     | false =>
       obtain ⟨hq, hlt⟩ := hd2 hdd
       by_cases hH : d.height + n.numConfs - 1 = cur + 1
-      · simp [f5, f6, hdd, hq, hH, ConfNtfn.sendConfirmed, f7, c2, delH_self, Core, f1, f2, f3, f4,
-          h1, h2, h3, h4, hl]
-      · have hne : (d.height + n.numConfs - 1 == cur + 1) = false := by simpa using hH
-        have hne' : ([d.height + n.numConfs - 1].contains (cur + 1)) = false := by
+      · simp [hdd, hq, hH, ConfNtfn.sendConfirmed, c2, delH_self, Core, h1, h2, h3, h4, hl]
+      · have hne' : ([d.height + n.numConfs - 1].contains (cur + 1)) = false := by
           simp; omega
         have hdl : delH (cur + 1) [d.height + n.numConfs - 1] = [d.height + n.numConfs - 1] :=
           delH_other hH
-        simp only [f5, f6, hdd, hq, hne', Bool.false_and, Bool.false_eq_true, ↓reduceIte, hdl]
-        refine ⟨by simp [f1, h1], by simp [f2, h2], by simp [f2, h3], by simp [f3, f4, h4 hl],
-          by simp [f3, hl], fun _ => ?_⟩
-        simp only [hdd, Bool.false_eq_true, false_implies, true_and, forall_const, f2]
+        simp only [hdd, hq, hne', Bool.false_and, Bool.false_eq_true, ↓reduceIte, hdl]
+        refine ⟨h1, h2, h3, h4, fun x => by simp [hl] at x, fun _ => ?_⟩
+        simp only [hdd, Bool.false_eq_true, false_implies, true_and, forall_const]
         omega
 
+theorem unqueue_core_none {cur cur' limit height : Nat} {n : ConfNtfn} (h : Core cur limit none n) :
+    Core cur' limit none (n.unqueue height) := by
+  obtain ⟨h1, h2, h3, h4, h5, h6⟩ := h
+  unfold ConfNtfn.unqueue
+  cases hl : n.live with
+  | false => simp [Core, h1, h2, h3, hl, h5 hl, delH_nil]
+  | true =>
+    obtain ⟨a, b⟩ := h6 hl
+    simp [Core, h1, h2, h3, h4, hl, a, b, delH_nil]
+
+theorem confirmAt_noop {d : ConfDetails} {height : Nat} {n : ConfNtfn}
+    (h : n.queuedAt.contains height = false) : n.confirmAt d height = n := by
+  unfold ConfNtfn.confirmAt
+  rw [h]; simp
+
+/-- first pass of `NotifyHeight` over one live client -/
+theorem updateAt_core {cur limit height : Nat} {det : Option ConfDetails} {d : ConfDetails}
+    {n : ConfNtfn} (hc : Chan n) (h : Core cur limit det n) (hl : n.live = true) :
+    Core cur limit det (n.updateAt d height) ∧
+      ((n.updateAt d height).closed = false → (n.updateAt d height).confirmed = []) := by
+  obtain ⟨c1, c2, c3, c4⟩ := hc (h.2.2.2.1 hl)
+  unfold ConfNtfn.updateAt
+  simp only
+  split
+  · exact ⟨h, fun _ => c2⟩
+  · obtain ⟨f1, f2, f3, f4, f5, f6, f7⟩ :=
+      sendUpdate_fields n (d.height + n.numConfs - 1 - height) d.height c1 h.2.1
+    exact ⟨Core.congr f1 f2 f3 f4 f5 f6 h, fun _ => by rw [f7]; exact c2⟩
+
 /-- the per-client part of `DisconnectTip(cur)` for a request confirmed in the disconnected block -/
-theorem reorg_core {cur limit depth k : Nat} {d : ConfDetails} {n : ConfNtfn}
+theorem disconnected_hit {cur limit depth k : Nat} {d : ConfDetails} {n : ConfNtfn}
     (hc : Chan n) (h : Core cur limit (some d) n) (hl : n.live = true) (hh : d.height = cur) :
-    Core (cur - 1) limit none
-      (({ n with updates := n.updates.drop k, left := n.numConfs } : ConfNtfn).reorg cur depth) := by
+    Core (cur - 1) limit none (n.disconnected k true cur depth) := by
   obtain ⟨h1, h2, h3, h4, h5, h6⟩ := h
   obtain ⟨c1, c2, c3, c4⟩ := hc (h4 hl)
   obtain ⟨hd1, hd2⟩ := h6 hl
-  unfold ConfNtfn.reorg ConfNtfn.sendNeg
+  unfold ConfNtfn.disconnected ConfNtfn.reorg ConfNtfn.sendNeg
   cases hdd : n.dispatched with
   | true =>
     have hq := hd1 hdd
@@ -300,6 +298,13 @@ theorem reorg_core {cur limit depth k : Nat} {d : ConfDetails} {n : ConfNtfn}
   | false =>
     obtain ⟨hq, hlt⟩ := hd2 hdd
     simp [hdd, c3, Core, h1, h2, h3, h4, hl, hq, hh, delH_self]
+
+/-- ... and for a request confirmed elsewhere -/
+theorem disconnected_miss {cur limit depth k height : Nat} {det : Option ConfDetails} {n : ConfNtfn}
+    (h : Core cur limit det n) : Core (cur - 1) limit det (n.disconnected k false height depth) := by
+  have : Core cur limit det (n.disconnected k false height depth) :=
+    Core.congr rfl rfl rfl rfl rfl rfl h
+  exact this.mono (by omega)
 
 theorem drained_core {cur limit : Nat} {det : Option ConfDetails} {n : ConfNtfn}
     (h : Core cur limit det n) : Core cur limit det (if n.closed then n else n.drained) := by
@@ -314,37 +319,61 @@ theorem drained_chan (n : ConfNtfn) : Chan (if n.closed then n else n.drained) :
 
 /-! ## request-level invariant -/
 
-/-- Invariant of one request against the ghost chain.  `cc` is the height used in the clients'
-    queue bookkeeping (`cur`, except between `ConnectTip` and its `NotifyHeight`). -/
-structure Pre (cc cur limit maxTip cover : Nat) (chain : List Block) (r : ConfReq) : Prop where
+/-- Invariant of one request against the ghost chain (everything except the clients). -/
+structure Pre0 (cur limit maxTip cover : Nat) (chain : List Block) (r : ConfReq) : Prop where
   len : chain.length = cur
   tip : cur ≤ maxTip
   valid : Valid chain r.key
   nopanic : r.panicked = false
   unset : r.set = false → r.details = none ∧ r.initialAt = [] ∧ ∀ n ∈ r.ntfns, n.live = false
-  det : ∀ d, r.details = some d → OnChain chain r.key d ∧
+  det : ∀ d, r.details = some d → OnChain chain r.key d ∧ r.rescan = .complete ∧
           (r.initialAt = [d.height] ∨ (r.initialAt = [] ∧ d.height + limit ≤ maxTip))
   nodet : r.details = none → r.initialAt = []
   cov : r.set = true → r.details = none → ∀ (h : Nat) (b : Block), cover ≤ h → 1 ≤ h →
           chain[h - 1]? = some b → ¬ b.has r.key
-  cl : ∀ n ∈ r.ntfns, Core cc limit r.details n
+
+/-- `cc` is the height used in the clients' queue bookkeeping (`cur`, except between
+    `ConnectTip` and its `NotifyHeight`). -/
+def Pre (cc cur limit maxTip cover : Nat) (chain : List Block) (r : ConfReq) : Prop :=
+  Pre0 cur limit maxTip cover chain r ∧ ∀ n ∈ r.ntfns, Core cc limit r.details n
 
 /-- between operations: additionally all channels have been emptied -/
 def RI (cur limit maxTip cover : Nat) (chain : List Block) (r : ConfReq) : Prop :=
   Pre cur cur limit maxTip cover chain r ∧ ∀ n ∈ r.ntfns, Chan n
 
+theorem Pre0.congr {cur limit maxTip cover : Nat} {chain : List Block} {r r' : ConfReq}
+    (h : Pre0 cur limit maxTip cover chain r)
+    (e1 : r'.key = r.key) (e2 : r'.set = r.set) (e3 : r'.details = r.details)
+    (e4 : r'.initialAt = r.initialAt) (e5 : r'.panicked = r.panicked)
+    (e6 : r.details.isSome → r'.rescan = r.rescan)
+    (hl : (∀ n ∈ r.ntfns, n.live = false) → ∀ n ∈ r'.ntfns, n.live = false) :
+    Pre0 cur limit maxTip cover chain r' := by
+  refine ⟨h.len, h.tip, by rw [e1]; exact h.valid, by rw [e5]; exact h.nopanic, ?_, ?_, ?_, ?_⟩
+  · intro hs
+    rw [e2] at hs
+    obtain ⟨a, b, c⟩ := h.unset hs
+    exact ⟨by rw [e3]; exact a, by rw [e4]; exact b, hl c⟩
+  · intro d hd
+    rw [e3] at hd
+    obtain ⟨a, b, c⟩ := h.det d hd
+    refine ⟨by rw [e1]; exact a, ?_, by rw [e4]; exact c⟩
+    rw [e6 (by simp [hd])]; exact b
+  · intro hd
+    rw [e3] at hd; rw [e4]; exact h.nodet hd
+  · intro hs hd
+    rw [e2] at hs; rw [e3] at hd; rw [e1]; exact h.cov hs hd
+
 theorem drainR_RI {cc cur limit maxTip cover : Nat} {chain : List Block} {r : ConfReq}
     (h : Pre cc cur limit maxTip cover chain r) :
     Pre cc cur limit maxTip cover chain (drainR r) ∧ ∀ n ∈ (drainR r).ntfns, Chan n := by
-  refine ⟨⟨h.len, h.tip, h.valid, h.nopanic, ?_, h.det, h.nodet, h.cov, ?_⟩, ?_⟩
-  · intro hs
-    obtain ⟨a, b, c⟩ := h.unset hs
-    refine ⟨a, b, ?_⟩
+  obtain ⟨h0, hcl⟩ := h
+  refine ⟨⟨h0.congr rfl rfl rfl rfl rfl (fun _ => rfl) ?_, ?_⟩, ?_⟩
+  · intro c
     refine all_map (P := fun n => n.live = false) (fun n hn => ?_) c
     split
     · exact hn
     · exact hn
-  · exact all_map (P := Core cc limit r.details) (fun n hn => drained_core hn) h.cl
+  · exact all_map (P := Core cc limit r.details) (fun n hn => drained_core hn) hcl
   · intro n hn
     simp only [drainR, List.mem_map] at hn
     obtain ⟨m, _, rfl⟩ := hn
@@ -362,31 +391,874 @@ theorem OnChain.le {chain : List Block} {key : Nat} {d : ConfDetails} (h : OnCha
 theorem cancel_pre {cur limit maxTip cover reg : Nat} {chain : List Block} {r : ConfReq}
     (h : RI cur limit maxTip cover chain r) :
     Pre cur cur limit maxTip cover chain (r.cancel reg) := by
-  obtain ⟨h, hch⟩ := h
+  obtain ⟨⟨h0, hcl⟩, hch⟩ := h
   unfold ConfReq.cancel
   split
-  · exact h
-  · refine ⟨h.len, h.tip, h.valid, h.nopanic, ?_, h.det, h.nodet, h.cov, ?_⟩
-    · intro hs
-      obtain ⟨a, b, c⟩ := h.unset hs
-      refine ⟨a, b, ?_⟩
+  · exact ⟨h0, hcl⟩
+  · refine ⟨h0.congr rfl rfl rfl rfl rfl (fun _ => rfl) ?_, ?_⟩
+    · intro c
       refine all_map (P := fun n => n.live = false) (fun n hn => ?_) c
       split
-      · split <;> rfl
+      · rfl
       · exact hn
-    · refine all_map (P := Core cur limit r.details) (fun n hn => ?_) h.cl
+    · refine all_map (P := Core cur limit r.details) (fun n hn => ?_) hcl
       split
       · rename_i hc
         have hl : n.live = true := by simp at hc; exact hc.2
-        have hq := cancel_queue hn hl
-        obtain ⟨h1, h2, h3, _, _, _⟩ := hn
-        cases hd : r.details with
-        | none =>
-          rw [hd] at hq
-          exact Core.of_dead h1 h2 h3 rfl hq
-        | some d =>
-          rw [hd] at hq
-          exact Core.of_dead h1 h2 h3 rfl hq
+        exact cancelled_core hn hl
       · exact hn
+
+/-! ### register -/
+
+theorem new_core {cur limit reg n : Nat} (h1 : 1 ≤ n) (h2 : n ≤ limit) :
+    Core cur limit none ({ reg := reg, numConfs := n, left := n } : ConfNtfn) := by
+  simp [Core, h1, h2]
+
+theorem new_chan {reg n : Nat} : Chan ({ reg := reg, numConfs := n, left := n } : ConfNtfn) := by
+  intro _; simp
+
+theorem dispatchAll_cl {cur limit : Nat} {r : ConfReq} {d : ConfDetails} (hd : r.details = some d)
+    (hcl : ∀ n ∈ r.ntfns, Chan n ∧ (Core cur limit (some d) n ∨ Core cur limit none n)) :
+    ∀ n ∈ (r.dispatchAll cur limit).ntfns, Core cur limit (r.dispatchAll cur limit).details n := by
+  unfold ConfReq.dispatchAll
+  simp only [hd]
+  refine all_map (P := fun n => Chan n ∧ (Core cur limit (some d) n ∨ Core cur limit none n))
+    (fun n hn => ?_) hcl
+  obtain ⟨hc, hco⟩ := hn
+  cases hl : n.live with
+  | false =>
+    simp only [Bool.false_eq_true, ↓reduceIte]
+    rcases hco with hco | hco
+    · exact hco
+    · exact hco.dead hl
+  | true =>
+    simp only [↓reduceIte]
+    rcases hco with hco | hco
+    · exact dispatch_same d hc hco hl
+    · exact dispatch_fresh d hc hco hl
+
+theorem dispatchAll_fields {cur limit : Nat} {r : ConfReq} {d : ConfDetails} (hd : r.details = some d) :
+    (r.dispatchAll cur limit).key = r.key ∧ (r.dispatchAll cur limit).set = r.set ∧
+    (r.dispatchAll cur limit).details = r.details ∧ (r.dispatchAll cur limit).panicked = r.panicked ∧
+    (r.dispatchAll cur limit).rescan = r.rescan ∧
+    (r.dispatchAll cur limit).initialAt =
+      (if (r.ntfns.any fun n => n.live && !n.dispatched) && decide (d.height + limit > cur)
+       then addH d.height r.initialAt else r.initialAt) := by
+  unfold ConfReq.dispatchAll
+  simp [hd]
+
+/-- `dispatchAll` when every client is consistent either with the details or with "none yet" -/
+theorem dispatchAll_pre {cur limit maxTip cover : Nat} {chain : List Block} {r : ConfReq}
+    {d : ConfDetails} (h0 : Pre0 cur limit maxTip cover chain r) (hd : r.details = some d)
+    (hcl : ∀ n ∈ r.ntfns, Chan n ∧ (Core cur limit (some d) n ∨ Core cur limit none n)) :
+    Pre cur cur limit maxTip cover chain (r.dispatchAll cur limit) := by
+  unfold ConfReq.dispatchAll
+  simp only [hd]
+  constructor
+  · refine ⟨h0.len, h0.tip, h0.valid, h0.nopanic, ?_, ?_, ?_, ?_⟩
+    · intro hs
+      obtain ⟨a, _, _⟩ := h0.unset hs
+      rw [hd] at a; cases a
+    · intro d' hd'
+      simp only [hd, Option.some.injEq] at hd'
+      subst hd'
+      obtain ⟨a, b, c⟩ := h0.det d hd
+      refine ⟨a, b, ?_⟩
+      rcases c with c | ⟨c1, c2⟩
+      · left; simp only [c]; split <;> simp [addH_self]
+      · simp only [c1]
+        split
+        · left; exact addH_nil _
+        · right; exact ⟨rfl, c2⟩
+    · intro hn; simp [hd] at hn
+    · intro _ hn; simp [hd] at hn
+  · simp only [hd]
+    refine all_map (P := fun n => Chan n ∧ (Core cur limit (some d) n ∨ Core cur limit none n))
+      (fun n hn => ?_) hcl
+    obtain ⟨hc, hco⟩ := hn
+    cases hl : n.live with
+    | false =>
+      simp only [Bool.false_eq_true, ↓reduceIte]
+      rcases hco with hco | hco
+      · exact hco
+      · exact hco.dead hl
+    | true =>
+      simp only [↓reduceIte]
+      rcases hco with hco | hco
+      · exact dispatch_same d hc hco hl
+      · exact dispatch_fresh d hc hco hl
+
+theorem register_pre {cur limit maxTip cover reg n hint : Nat} {chain : List Block} {r : ConfReq}
+    (h : RI cur limit maxTip cover chain r) (hn1 : 1 ≤ n) (hn2 : n ≤ limit) :
+    Pre cur cur limit maxTip (if r.set then cover else cur + 1) chain
+      (r.register cur limit reg n hint).1 := by
+  obtain ⟨⟨h0, hcl⟩, hch⟩ := h
+  -- after `opened` and `addNtfn`
+  let r1 := r.opened.addNtfn { reg := reg, numConfs := n, left := n }
+  have e_key : r1.key = r.key := by simp only [r1, ConfReq.addNtfn, ConfReq.opened]; split <;> rfl
+  have e_det : r1.details = r.details := by
+    simp only [r1, ConfReq.addNtfn, ConfReq.opened]
+    split
+    · rfl
+    · rename_i hs
+      exact ((h0.unset (by simpa using hs)).1).symm
+  have e_ini : r1.initialAt = r.initialAt := by
+    simp only [r1, ConfReq.addNtfn, ConfReq.opened]; split <;> rfl
+  have e_pan : r1.panicked = r.panicked := by
+    simp only [r1, ConfReq.addNtfn, ConfReq.opened]; split <;> rfl
+  have e_set : r1.set = true := by
+    simp only [r1, ConfReq.addNtfn, ConfReq.opened]; split
+    · rename_i hs; exact hs
+    · rfl
+  have e_res : r.details.isSome → r1.rescan = r.rescan := by
+    intro hd
+    simp only [r1, ConfReq.addNtfn, ConfReq.opened]; split
+    · rfl
+    · rename_i hs
+      rw [(h0.unset (by simpa using hs)).1] at hd; simp at hd
+  have e_nt : r1.ntfns = r.ntfns ++ [{ reg := reg, numConfs := n, left := n }] := by
+    simp only [r1, ConfReq.addNtfn, ConfReq.opened]; split <;> rfl
+  have h1 : Pre0 cur limit maxTip (if r.set then cover else cur + 1) chain r1 := by
+    refine ⟨h0.len, h0.tip, by rw [e_key]; exact h0.valid, by rw [e_pan]; exact h0.nopanic, ?_, ?_, ?_, ?_⟩
+    · intro hs; rw [e_set] at hs; cases hs
+    · intro d hd
+      rw [e_det] at hd
+      obtain ⟨a, b, c⟩ := h0.det d hd
+      exact ⟨by rw [e_key]; exact a, by rw [e_res (by simp [hd])]; exact b, by rw [e_ini]; exact c⟩
+    · intro hd; rw [e_det] at hd; rw [e_ini]; exact h0.nodet hd
+    · intro _ hd hh b hge h1 hb
+      rw [e_det] at hd; rw [e_key]
+      cases hs : r.set with
+      | true =>
+        simp only [hs, ↓reduceIte] at hge
+        exact h0.cov hs hd hh b hge h1 hb
+      | false =>
+        simp only [hs, Bool.false_eq_true, ↓reduceIte] at hge
+        have := (List.getElem?_eq_some_iff.mp hb).1
+        have := h0.len
+        omega
+  have hnew1 : ∀ m ∈ r1.ntfns, Chan m ∧ (Core cur limit r.details m ∨ Core cur limit none m) := by
+    intro m hm
+    rw [e_nt] at hm
+    simp only [List.mem_append, List.mem_singleton] at hm
+    rcases hm with hm | rfl
+    · exact ⟨hch m hm, Or.inl (hcl m hm)⟩
+    · exact ⟨new_chan, Or.inr (new_core hn1 hn2)⟩
+  show Pre cur cur limit maxTip _ chain (r1.registered cur limit (startHeight r.hint hint)).1
+  cases hd : r.details with
+  | some d =>
+    have hrs : r1.rescan = .complete := by
+      rw [e_res (by simp [hd])]; exact (h0.det d hd).2.1
+    unfold ConfReq.registered
+    simp only [hrs]
+    exact dispatchAll_pre h1 (by rw [e_det, hd]) (fun m hm => by simpa [hd] using hnew1 m hm)
+  | none =>
+    have hc1 : ∀ m ∈ r1.ntfns, Core cur limit r1.details m := by
+      intro m hm
+      rw [e_det, hd]
+      rcases (hnew1 m hm).2 with x | x
+      · rw [hd] at x; exact x
+      · exact x
+    have hd1 : r1.details = none := by rw [e_det, hd]
+    generalize (if r.set = true then cover else cur + 1) = cv at h1 ⊢
+    unfold ConfReq.registered
+    cases hrs : r1.rescan with
+    | complete =>
+      simp only
+      unfold ConfReq.dispatchAll
+      simp only [hd1]
+      exact ⟨h1, hc1⟩
+    | pending => exact ⟨h1, hc1⟩
+    | notStarted =>
+      simp only
+      split
+      · exact ⟨h1.congr rfl rfl rfl rfl rfl (fun x => by simp [hd1] at x) (fun c => c), hc1⟩
+      · exact ⟨h1.congr rfl rfl rfl rfl rfl (fun x => by simp [hd1] at x) (fun c => c), hc1⟩
+
+/-! ### historical rescan completes -/
+
+theorem Pre0.cover_le {cur limit maxTip cover cover' : Nat} {chain : List Block} {r : ConfReq}
+    (h : Pre0 cur limit maxTip cover chain r)
+    (hc : r.set = true → r.details = none → ∀ (h : Nat) (b : Block), cover' ≤ h → h < cover → 1 ≤ h →
+          chain[h - 1]? = some b → ¬ b.has r.key) :
+    Pre0 cur limit maxTip cover' chain r := by
+  refine ⟨h.len, h.tip, h.valid, h.nopanic, h.unset, h.det, h.nodet, ?_⟩
+  intro hs hd hh b hge h1 hb
+  by_cases hlt : hh < cover
+  · exact hc hs hd hh b hge hlt h1 hb
+  · exact h.cov hs hd hh b (by omega) h1 hb
+
+theorem update_pre {cur limit maxTip cover from_ : Nat} {chain : List Block} {r : ConfReq}
+    {d : Option ConfDetails} (h : RI cur limit maxTip cover chain r)
+    (hok : match d with
+      | some d => OnChain chain r.key d ∧ ∃ n ∈ r.ntfns, n.live = true
+      | none => ∀ (h : Nat) (b : Block), from_ ≤ h → 1 ≤ h → chain[h - 1]? = some b → ¬ b.has r.key) :
+    Pre cur cur limit maxTip (min cover from_) chain (r.update cur limit d).1 := by
+  obtain ⟨⟨h0, hcl⟩, hch⟩ := h
+  unfold ConfReq.update
+  split
+  · rename_i hs
+    refine ⟨h0.cover_le (fun hs' => ?_), hcl⟩
+    simp [hs'] at hs
+  · rename_i hs
+    have hset : r.set = true := by simpa using hs
+    split
+    · rename_i hd
+      refine ⟨h0.cover_le (fun _ hd' => ?_), hcl⟩
+      simp [hd'] at hd
+    · rename_i hd
+      have hdn : r.details = none := by
+        cases hx : r.details with
+        | none => rfl
+        | some x => simp [hx] at hd
+      cases d with
+      | none =>
+        simp only
+        refine ⟨?_, by simpa using hcl⟩
+        have h0' : Pre0 cur limit maxTip cover chain
+            { r with rescan := .complete, hint := some cur } :=
+          h0.congr rfl rfl rfl rfl rfl (fun x => by simp [hdn] at x) (fun c => c)
+        refine h0'.cover_le (fun _ _ hh b hge _ h1 hb => ?_)
+        exact hok hh b (by omega) h1 hb
+      | some d =>
+        obtain ⟨hon, m, hm, hml⟩ := hok
+        have hle := hon.le
+        rw [h0.len] at hle
+        simp only
+        split
+        · omega
+        · -- the details are cached and dispatched
+          have hfresh : (r.ntfns.any fun n => n.live && !n.dispatched) = true := by
+            rw [List.any_eq_true]
+            refine ⟨m, hm, ?_⟩
+            have := (hcl m hm).2.2.2.2.2 hml
+            rw [hdn] at this
+            simp [hml, this.1]
+          let r2 : ConfReq := { r with rescan := .complete, hint := some d.height, details := some d }
+          have hd2 : r2.details = some d := rfl
+          obtain ⟨f1, f2, f3, f4, f5, f6⟩ := dispatchAll_fields (cur := cur) (limit := limit) hd2
+          have hcl2 : ∀ n ∈ r2.ntfns, Chan n ∧ (Core cur limit (some d) n ∨ Core cur limit none n) := by
+            intro n hn
+            refine ⟨hch n hn, Or.inr ?_⟩
+            have := hcl n hn
+            rw [hdn] at this; exact this
+          refine ⟨?_, dispatchAll_cl hd2 hcl2⟩
+          refine ⟨h0.len, h0.tip, by rw [f1]; exact h0.valid, by rw [f4]; exact h0.nopanic, ?_, ?_, ?_, ?_⟩
+          · intro hs'; rw [f2] at hs'; simp [r2, hset] at hs'
+          · intro d' hd'
+            rw [f3] at hd'
+            simp only [r2, Option.some.injEq] at hd'
+            subst hd'
+            refine ⟨by rw [f1]; exact hon, by rw [f5], ?_⟩
+            rw [f6]
+            have hini : r2.initialAt = [] := h0.nodet hdn
+            have hf2 : (r2.ntfns.any fun n => n.live && !n.dispatched) = true := hfresh
+            rw [hini, hf2]
+            by_cases hlim : d.height + limit > cur
+            · left; simp [hlim, addH_nil]
+            · right; simp [hlim]; have := h0.tip; omega
+          · intro hx; rw [f3] at hx; simp [r2] at hx
+          · intro _ hx; rw [f3] at hx; simp [r2] at hx
+
+/-! ### DisconnectTip -/
+
+theorem dropLast_some {l : List Block} {i : Nat} {b : Block} (h : l.dropLast[i]? = some b) :
+    l[i]? = some b ∧ i + 1 < l.length := by
+  rw [List.getElem?_dropLast] at h
+  split at h
+  · exact ⟨h, by omega⟩
+  · cases h
+
+theorem dropLast_of_lt {l : List Block} {i : Nat} (h : i + 1 < l.length) :
+    l.dropLast[i]? = l[i]? := by
+  rw [List.getElem?_dropLast]; simp; omega
+
+theorem Valid.dropLast {chain : List Block} {key : Nat} (h : Valid chain key) :
+    Valid chain.dropLast key := by
+  intro i j bi bj hi hj
+  exact h i j bi bj (dropLast_some hi).1 (dropLast_some hj).1
+
+theorem OnChain.dropLast {chain : List Block} {key : Nat} {d : ConfDetails}
+    (h : OnChain chain key d) (hlt : d.height < chain.length) : OnChain chain.dropLast key d := by
+  obtain ⟨h1, b, hb, rest⟩ := h
+  exact ⟨h1, b, by rw [dropLast_of_lt (by omega)]; exact hb, rest⟩
+
+theorem OnChain.has {chain : List Block} {key : Nat} {d : ConfDetails} (h : OnChain chain key d) :
+    ∃ b, chain[d.height - 1]? = some b ∧ b.has key := by
+  obtain ⟨_, b, hb, _, hi⟩ := h
+  exact ⟨b, hb, fun hn => by simp [hn] at hi⟩
+
+theorem updateHint_fields (cur height : Nat) (r : ConfReq) :
+    (r.updateHint cur height).key = r.key ∧ (r.updateHint cur height).set = r.set ∧
+    (r.updateHint cur height).details = r.details ∧ (r.updateHint cur height).initialAt = r.initialAt ∧
+    (r.updateHint cur height).panicked = r.panicked ∧ (r.updateHint cur height).rescan = r.rescan ∧
+    (r.updateHint cur height).ntfns = r.ntfns := by
+  unfold ConfReq.updateHint; split <;> simp
+
+theorem disconnect_pre {cur limit maxTip cover depth : Nat} {chain : List Block} {r : ConfReq}
+    (h : RI cur limit maxTip cover chain r) (hc1 : 1 ≤ cur) (hlim : cur + limit > maxTip) :
+    Pre (cur - 1) (cur - 1) limit maxTip (min cover cur) chain.dropLast
+      (r.disconnect (cur - 1) depth cur) := by
+  obtain ⟨⟨h0, hcl⟩, hch⟩ := h
+  obtain ⟨u1, u2, u3, u4, u5, u6, u7⟩ := updateHint_fields (cur - 1) cur r
+  unfold ConfReq.disconnect
+  generalize r.updateHint (cur - 1) cur = r0 at u1 u2 u3 u4 u5 u6 u7
+  have hlen := h0.len
+  -- facts about the shortened chain that do not depend on the branch
+  have hvalid : Valid chain.dropLast r.key := h0.valid.dropLast
+  have hcov : ∀ (hh : Nat) (b : Block), min cover cur ≤ hh → 1 ≤ hh →
+      chain.dropLast[hh - 1]? = some b → cover ≤ hh ∧ chain[hh - 1]? = some b ∧ hh < cur := by
+    intro hh b hge h1 hb
+    obtain ⟨hb', hlt⟩ := dropLast_some hb
+    refine ⟨?_, hb', by omega⟩
+    have : hh < cur := by omega
+    omega
+  simp only
+  split
+  · -- the request is not watched at any height: nothing but the hint changes
+    rename_i hemp
+    have hini : r.initialAt = [] := by
+      rw [u4] at hemp; simpa using hemp
+    refine ⟨⟨by rw [List.length_dropLast]; omega, by have := h0.tip; omega, by rw [u1]; exact hvalid,
+      by rw [u5]; exact h0.nopanic, ?_, ?_, ?_, ?_⟩, ?_⟩
+    · intro hs; rw [u2] at hs
+      obtain ⟨a, b, c⟩ := h0.unset hs
+      exact ⟨by rw [u3]; exact a, by rw [u4]; exact b, by rw [u7]; exact c⟩
+    · intro d hd; rw [u3] at hd
+      obtain ⟨a, b, c⟩ := h0.det d hd
+      have hle := a.le
+      rcases c with c | ⟨_, c2⟩
+      · rw [hini] at c; cases c
+      · refine ⟨by rw [u1]; exact a.dropLast (by omega), by rw [u6]; exact b, ?_⟩
+        right; exact ⟨by rw [u4]; exact hini, c2⟩
+    · intro hd; rw [u4]; exact hini
+    · intro hs hd hh b hge h1 hb
+      rw [u2] at hs; rw [u3] at hd; rw [u1]
+      obtain ⟨x, y, _⟩ := hcov hh b hge h1 hb
+      exact h0.cov hs hd hh b x h1 y
+    · rw [u7, u3]
+      intro n hn
+      exact (hcl n hn).mono (by omega)
+  · rename_i hemp
+    have hne : r.initialAt ≠ [] := by
+      rw [u4] at hemp; simpa using hemp
+    have hset : r.set = true := by
+      cases hs : r.set with
+      | true => rfl
+      | false => exact absurd (h0.unset hs).2.1 hne
+    have hdsome : ∃ d, r.details = some d := by
+      cases hd : r.details with
+      | none => exact absurd (h0.nodet hd) hne
+      | some d => exact ⟨d, rfl⟩
+    obtain ⟨d, hd⟩ := hdsome
+    obtain ⟨hon, hrs, hini⟩ := h0.det d hd
+    have hini : r.initialAt = [d.height] := by
+      rcases hini with c | ⟨c, _⟩
+      · exact c
+      · exact absurd c hne
+    have hle := hon.le
+    split
+    · rename_i hs; rw [u2] at hs; simp [hset] at hs
+    · by_cases hhit : d.height = cur
+      · -- confirmed in the disconnected block
+        have hcont : r0.initialAt.contains cur = true := by rw [u4, hini]; simp [hhit]
+        simp only [hcont, ↓reduceIte]
+        refine ⟨⟨by rw [List.length_dropLast]; omega, by have := h0.tip; omega, by rw [u1]; exact hvalid,
+          by rw [u5]; exact h0.nopanic, ?_, ?_, ?_, ?_⟩, ?_⟩
+        · intro hs; rw [u2] at hs; simp [hset] at hs
+        · intro d' hd'; cases hd'
+        · intro _; rw [u4, hini, hhit]; exact delH_self cur
+        · intro _ _ hh b hge h1 hb hhas
+          rw [u1] at hhas
+          obtain ⟨_, y, z⟩ := hcov hh b hge h1 hb
+          obtain ⟨bd, hbd, hbdhas⟩ := hon.has
+          have := h0.valid (hh - 1) (d.height - 1) b bd y hbd hhas hbdhas
+          omega
+        · simp only [u7]
+          refine all_map (P := fun n => Chan n ∧ Core cur limit (some d) n) (fun n hn => ?_)
+            (fun n hn => ⟨hch n hn, by have := hcl n hn; rw [hd] at this; exact this⟩)
+          cases hl : n.live with
+          | true =>
+            simp only [↓reduceIte]
+            exact disconnected_hit hn.1 hn.2 hl hhit
+          | false =>
+            simp only [Bool.false_eq_true, ↓reduceIte]
+            exact hn.2.dead hl
+      · -- confirmed below
+        have hcont : r0.initialAt.contains cur = false := by
+          rw [u4, hini]; simp; omega
+        simp only [hcont, Bool.false_eq_true, ↓reduceIte]
+        refine ⟨⟨by rw [List.length_dropLast]; omega, by have := h0.tip; omega, by rw [u1]; exact hvalid,
+          by rw [u5]; exact h0.nopanic, ?_, ?_, ?_, ?_⟩, ?_⟩
+        · intro hs; rw [u2] at hs; simp [hset] at hs
+        · intro d' hd'
+          rw [u3, hd] at hd'
+          simp only [Option.some.injEq] at hd'; subst hd'
+          refine ⟨by rw [u1]; exact hon.dropLast (by omega), by rw [u6]; exact hrs, ?_⟩
+          left; rw [u4, hini]; exact delH_other (by omega)
+        · intro hx; rw [u3, hd] at hx; cases hx
+        · intro _ hx; rw [u3, hd] at hx; cases hx
+        · simp only [u7, u3]
+          refine all_map (P := fun n => Core cur limit r.details n) (fun n hn => ?_) hcl
+          cases hl : n.live with
+          | true =>
+            simp only [↓reduceIte]
+            exact disconnected_miss hn
+          | false =>
+            simp only [Bool.false_eq_true, ↓reduceIte]
+            exact hn.mono (by omega)
+
+/-! ### ConnectTip -/
+
+theorem atTip_atTip (r : ConfReq) (d d' : ConfDetails) : (r.atTip d).atTip d' = r.atTip d := by
+  unfold ConfReq.atTip
+  cases hs : r.set with
+  | false => simp [hs]
+  | true =>
+    cases hd : r.details with
+    | some x => simp [hs, hd]
+    | none => simp [hs, hd]
+
+theorem foldl_atTip (r : ConfReq) (c bid : Nat) (hits : List Nat) :
+    hits.foldl (fun r i => r.atTip ⟨c, bid, i⟩) r =
+      match hits with
+      | [] => r
+      | i :: _ => r.atTip ⟨c, bid, i⟩ := by
+  cases hits with
+  | nil => rfl
+  | cons i t =>
+    simp only [List.foldl_cons]
+    induction t with
+    | nil => rfl
+    | cons j t ih => simp only [List.foldl_cons, atTip_atTip]; exact ih
+
+theorem Valid.append {chain : List Block} {key : Nat} {b : Block} (h : Valid chain key)
+    (hb : b.has key → ∀ (j : Nat) (b' : Block), chain[j]? = some b' → ¬ b'.has key) :
+    Valid (chain ++ [b]) key := by
+  intro i j bi bj hi hj hbi hbj
+  by_cases hil : i < chain.length
+  · rw [List.getElem?_append_left hil] at hi
+    by_cases hjl : j < chain.length
+    · rw [List.getElem?_append_left hjl] at hj
+      exact h i j bi bj hi hj hbi hbj
+    · rw [List.getElem?_append_right (by omega)] at hj
+      have : bj = b := by
+        cases hx : j - chain.length with
+        | zero => simp [hx] at hj; exact hj.symm
+        | succ k => simp [hx] at hj
+      subst this
+      exact absurd hbi (hb hbj i bi hi)
+  · rw [List.getElem?_append_right (by omega)] at hi
+    have hib : bi = b ∧ i = chain.length := by
+      cases hx : i - chain.length with
+      | zero => simp [hx] at hi; exact ⟨hi.symm, by omega⟩
+      | succ k => simp [hx] at hi
+    obtain ⟨rfl, hie⟩ := hib
+    by_cases hjl : j < chain.length
+    · rw [List.getElem?_append_left hjl] at hj
+      exact absurd hbj (hb hbi j bj hj)
+    · rw [List.getElem?_append_right (by omega)] at hj
+      have : j = chain.length := by
+        cases hx : j - chain.length with
+        | zero => omega
+        | succ k => simp [hx] at hj
+      omega
+
+theorem OnChain.append {chain : List Block} {key : Nat} {d : ConfDetails} (b : Block)
+    (h : OnChain chain key d) : OnChain (chain ++ [b]) key d := by
+  have hle := h.le
+  obtain ⟨h1, b', hb, rest⟩ := h
+  exact ⟨h1, b', by rw [List.getElem?_append_left (by omega)]; exact hb, rest⟩
+
+/-- the `handleConfDetailsAtTip` part of `ConnectTip(cur + 1, b)` -/
+theorem atTip_pre {cur limit maxTip cover : Nat} {chain : List Block} {r : ConfReq} {b : Block}
+    (h : RI cur limit maxTip cover chain r)
+    (hok : b.has r.key → ∀ (j : Nat) (b' : Block), chain[j]? = some b' → ¬ b'.has r.key) :
+    let r1 := match b.confHits r.key with
+      | [] => r
+      | i :: _ => r.atTip ⟨cur + 1, b.id, i⟩
+    Pre cur (cur + 1) limit (max maxTip (cur + 1)) cover (chain ++ [b]) r1 ∧ ∀ n ∈ r1.ntfns, Chan n := by
+  obtain ⟨⟨h0, hcl⟩, hch⟩ := h
+  have hlen : (chain ++ [b]).length = cur + 1 := by simp [h0.len]
+  have hvalid : Valid (chain ++ [b]) r.key := h0.valid.append hok
+  -- the request does not change
+  have same : (¬ b.has r.key ∨ r.set = false ∨ r.details.isSome) →
+      Pre cur (cur + 1) limit (max maxTip (cur + 1)) cover (chain ++ [b]) r := by
+    intro hcase
+    refine ⟨⟨hlen, by omega, hvalid, h0.nopanic, h0.unset, ?_, h0.nodet, ?_⟩, hcl⟩
+    · intro d hd
+      obtain ⟨a, x, c⟩ := h0.det d hd
+      refine ⟨a.append b, x, ?_⟩
+      rcases c with c | ⟨c1, c2⟩
+      · exact Or.inl c
+      · exact Or.inr ⟨c1, by omega⟩
+    · intro hs hd hh bb hge h1 hb
+      by_cases hlt : hh - 1 < chain.length
+      · rw [List.getElem?_append_left hlt] at hb
+        exact h0.cov hs hd hh bb hge h1 hb
+      · rw [List.getElem?_append_right (by omega)] at hb
+        have : bb = b := by
+          cases hx : hh - 1 - chain.length with
+          | zero => simp [hx] at hb; exact hb.symm
+          | succ k => simp [hx] at hb
+        subst this
+        rcases hcase with c | c | c
+        · exact c
+        · rw [hs] at c; cases c
+        · rw [hd] at c; cases c
+  cases hhits : b.confHits r.key with
+  | nil =>
+    simp only
+    exact ⟨same (Or.inl (by simp [Block.has, hhits])), hch⟩
+  | cons i t =>
+    simp only
+    unfold ConfReq.atTip
+    cases hs : r.set with
+    | false => simp only [Bool.not_false, ↓reduceIte]; exact ⟨same (Or.inr (Or.inl hs)), hch⟩
+    | true =>
+      cases hd : r.details with
+      | some x =>
+        simp only [Bool.not_true, Bool.false_eq_true, ↓reduceIte, Option.isSome_some]
+        exact ⟨same (Or.inr (Or.inr (by simp [hd]))), hch⟩
+      | none =>
+        simp only [Bool.not_true, Bool.false_eq_true, ↓reduceIte, Option.isSome_none]
+        have hini : r.initialAt = [] := h0.nodet hd
+        refine ⟨⟨⟨hlen, by omega, hvalid, h0.nopanic, ?_, ?_, ?_, ?_⟩, ?_⟩, ?_⟩
+        · intro hs'; simp [hs] at hs'
+        · intro d' hd'
+          simp only [Option.some.injEq] at hd'
+          subst hd'
+          refine ⟨⟨by simp, b, ?_, rfl, by simp [hhits]⟩, rfl, Or.inl ?_⟩
+          · simp only [Nat.add_sub_cancel]
+            rw [← h0.len]; exact List.getElem?_concat_length
+          · simp [hini, addH_nil]
+        · intro hx; cases hx
+        · intro _ hx; cases hx
+        · simp only
+          refine all_map (P := Core cur limit r.details) (fun n hn => ?_) hcl
+          cases hl : n.live with
+          | true =>
+            simp only [↓reduceIte]
+            rw [hd] at hn
+            exact tipped_core b.id i hn hl
+          | false =>
+            simp only [Bool.false_eq_true, ↓reduceIte]
+            exact hn.dead hl
+        · refine all_map (P := Chan) (fun n hn => ?_) hch
+          split
+          · intro hc
+            obtain ⟨c1, c2, c3, c4⟩ := hn hc
+            simp [ConfNtfn.tipped, c1, c2, c3, c4]
+          · exact hn
+
+theorem updateHint_pre {cc cur limit maxTip cover c h : Nat} {chain : List Block} {r : ConfReq}
+    (hp : Pre cc cur limit maxTip cover chain r) (hch : ∀ n ∈ r.ntfns, Chan n) :
+    Pre cc cur limit maxTip cover chain (r.updateHint c h) ∧
+      ∀ n ∈ (r.updateHint c h).ntfns, Chan n := by
+  obtain ⟨u1, u2, u3, u4, u5, u6, u7⟩ := updateHint_fields c h r
+  obtain ⟨h0, hcl⟩ := hp
+  refine ⟨⟨h0.congr u1 u2 u3 u4 u5 (fun _ => u6) (fun x => by rw [u7]; exact x), ?_⟩, ?_⟩
+  · rw [u7, u3]; exact hcl
+  · rw [u7]; exact hch
+
+/-- the maturity clause of `ConnectTip(cc + 1, ·)` -/
+theorem mature_pre {cc limit maxTip cover : Nat} {chain : List Block} {r : ConfReq}
+    (hp : Pre cc (cc + 1) limit maxTip cover chain r) (hch : ∀ n ∈ r.ntfns, Chan n) :
+    Pre cc (cc + 1) limit maxTip cover chain (r.mature (cc + 1) limit) := by
+  obtain ⟨h0, hcl⟩ := hp
+  unfold ConfReq.mature
+  split
+  · rename_i hfire
+    simp only [Bool.and_eq_true, decide_eq_true_eq] at hfire
+    obtain ⟨hge, hcont⟩ := hfire
+    have hne : r.initialAt ≠ [] := by
+      intro hx; rw [hx] at hcont; simp at hcont
+    have hset : r.set = true := by
+      cases hs : r.set with
+      | true => rfl
+      | false => exact absurd (h0.unset hs).2.1 hne
+    obtain ⟨d, hd⟩ : ∃ d, r.details = some d := by
+      cases hd : r.details with
+      | none => exact absurd (h0.nodet hd) hne
+      | some d => exact ⟨d, rfl⟩
+    obtain ⟨hon, hrs, hini⟩ := h0.det d hd
+    have hini : r.initialAt = [d.height] := by
+      rcases hini with c | ⟨c, _⟩
+      · exact c
+      · exact absurd c hne
+    have hdh : d.height = cc + 1 - limit := by
+      rw [hini] at hcont; simp at hcont; omega
+    simp only [hset, Bool.not_true, Bool.false_eq_true, ↓reduceIte]
+    refine ⟨⟨h0.len, h0.tip, h0.valid, h0.nopanic, ?_, ?_, ?_, ?_⟩, ?_⟩
+    · intro _
+      refine ⟨rfl, ?_, ?_⟩
+      · simp only [hini, hdh]; exact delH_self _
+      · intro n hn
+        simp only [List.mem_map] at hn
+        obtain ⟨m, _, rfl⟩ := hn
+        cases hl : m.live with
+        | true => simp [ConfNtfn.matured]
+        | false => simp [hl]
+    · intro d' hd'; cases hd'
+    · intro _; simp only [hini, hdh]; exact delH_self _
+    · intro hs; cases hs
+    · simp only
+      refine all_map (P := fun n => Chan n ∧ Core cc limit (some d) n) (fun n hn => ?_)
+        (fun n hn => ⟨hch n hn, by have := hcl n hn; rw [hd] at this; exact this⟩)
+      cases hl : n.live with
+      | true =>
+        simp only [↓reduceIte]
+        exact matured_core hn.1 hn.2 hl (by omega)
+      | false =>
+        simp only [Bool.false_eq_true, ↓reduceIte]
+        exact hn.2.dead hl
+  · exact ⟨h0, hcl⟩
+
+theorem connect_pre {cur limit maxTip cover : Nat} {chain : List Block} {r : ConfReq} {b : Block}
+    (h : RI cur limit maxTip cover chain r)
+    (hok : b.has r.key → ∀ (j : Nat) (b' : Block), chain[j]? = some b' → ¬ b'.has r.key) :
+    Pre cur (cur + 1) limit (max maxTip (cur + 1)) cover (chain ++ [b])
+      (r.connect (cur + 1) limit b) := by
+  unfold ConfReq.connect
+  rw [foldl_atTip]
+  obtain ⟨hp, hch⟩ := atTip_pre h hok
+  obtain ⟨hp2, hch2⟩ := updateHint_pre (c := cur + 1) (h := cur + 1) hp hch
+  exact mature_pre hp2 hch2
+
+/-! ### NotifyHeight -/
+
+/-- per-client summary between the passes of `NotifyHeight` -/
+def Q1 (cur limit : Nat) (det : Option ConfDetails) (n : ConfNtfn) : Prop :=
+  Core cur limit det n ∧ (n.closed = false → n.confirmed = [])
+
+theorem notifyUpdates_pre {cur limit maxTip cover height : Nat} {chain : List Block} {r : ConfReq}
+    (hp : Pre cur (cur + 1) limit maxTip cover chain r) (hch : ∀ n ∈ r.ntfns, Chan n) :
+    Pre0 (cur + 1) limit maxTip cover chain (r.notifyUpdates height) ∧
+      (r.notifyUpdates height).details = r.details ∧
+      ∀ n ∈ (r.notifyUpdates height).ntfns, Q1 cur limit r.details n := by
+  obtain ⟨h0, hcl⟩ := hp
+  have base : ∀ n ∈ r.ntfns, Q1 cur limit r.details n := fun n hn =>
+    ⟨hcl n hn, fun hc => (hch n hn hc).2.1⟩
+  unfold ConfReq.notifyUpdates
+  split
+  · exact ⟨h0, rfl, base⟩
+  · rename_i hemp
+    have hne : r.initialAt ≠ [] := by simpa using hemp
+    have hset : r.set = true := by
+      cases hs : r.set with
+      | true => rfl
+      | false => exact absurd (h0.unset hs).2.1 hne
+    obtain ⟨d, hd⟩ : ∃ d, r.details = some d := by
+      cases hd : r.details with
+      | none => exact absurd (h0.nodet hd) hne
+      | some d => exact ⟨d, rfl⟩
+    have hcl' : ∀ n ∈ r.ntfns, Core cur limit (some d) n := fun n hn => by
+      have := hcl n hn; rw [hd] at this; exact this
+    simp only [hset, hd]
+    refine ⟨h0.congr rfl hset.symm hd.symm rfl rfl (fun _ => rfl) ?_, trivial, ?_⟩
+    · intro c
+      refine all_map (P := fun n => n.live = false) (fun n hn => ?_) c
+      simp [hn]
+    · refine all_map (P := fun n => Chan n ∧ Core cur limit (some d) n) (fun n hn => ?_)
+        (fun n hn => ⟨hch n hn, hcl' n hn⟩)
+      cases hl : n.live with
+      | true =>
+        simp only [↓reduceIte]
+        exact updateAt_core hn.1 hn.2 hl
+      | false =>
+        simp only [Bool.false_eq_true, ↓reduceIte]
+        exact ⟨hn.2, fun hc => (hn.1 hc).2.1⟩
+
+theorem Q1.not_queued_dead {cur limit height : Nat} {n : ConfNtfn}
+    (h : Q1 cur limit none n) : n.queuedAt.contains height = false := by
+  obtain ⟨⟨h1, h2, h3, h4, h5, h6⟩, _⟩ := h
+  cases hl : n.live with
+  | false => simp [h5 hl]
+  | true => simp [(h6 hl).2]
+
+theorem notify_pre {cur limit maxTip cover : Nat} {chain : List Block} {r : ConfReq}
+    (hp : Pre cur (cur + 1) limit maxTip cover chain r) (hch : ∀ n ∈ r.ntfns, Chan n) :
+    Pre (cur + 1) (cur + 1) limit maxTip cover chain (r.notify (cur + 1)) := by
+  obtain ⟨g0, gd, gq⟩ := notifyUpdates_pre (height := cur + 1) hp hch
+  unfold ConfReq.notify
+  generalize r.notifyUpdates (cur + 1) = r1 at g0 gd gq
+  simp only
+  cases hd : r.details with
+  | none =>
+    rw [hd] at gq
+    have hd1 : r1.details = none := by rw [gd, hd]
+    have hnone : (r1.ntfns.any fun n => n.queuedAt.contains (cur + 1)) = false := by
+      rw [List.any_eq_false]
+      intro n hn
+      have := (gq n hn).not_queued_dead (height := cur + 1)
+      simpa using this
+    unfold ConfReq.notifyDue
+    simp only [hnone, Bool.not_false, ↓reduceIte]
+    refine ⟨g0.congr rfl rfl rfl rfl rfl (fun _ => rfl) ?_, ?_⟩
+    · intro c
+      refine all_map (P := fun n => n.live = false) (fun n hn => ?_) c
+      simpa [ConfNtfn.unqueue] using hn
+    · simp only [hd1]
+      exact all_map (P := Q1 cur limit none) (fun n hn => unqueue_core_none hn.1) gq
+  | some d =>
+    rw [hd] at gq
+    have hd1 : r1.details = some d := by rw [gd, hd]
+    have hset : r1.set = true := by
+      cases hs : r1.set with
+      | true => rfl
+      | false => have := (g0.unset hs).1; rw [hd1] at this; cases this
+    -- every client ends up as `unqueue (confirmAt n)`
+    have hfinal : ∀ n ∈ r1.ntfns,
+        Core (cur + 1) limit (some d) ((n.confirmAt d (cur + 1)).unqueue (cur + 1)) :=
+      fun n hn => confirm_unqueue_core (gq n hn).1 (gq n hn).2
+    unfold ConfReq.notifyDue
+    split
+    · -- nobody is due
+      rename_i hnone
+      have hnone' : ∀ n ∈ r1.ntfns, n.queuedAt.contains (cur + 1) = false := by
+        have : (r1.ntfns.any fun n => n.queuedAt.contains (cur + 1)) = false := by simpa using hnone
+        rw [List.any_eq_false] at this
+        intro n hn; simpa using this n hn
+      refine ⟨g0.congr rfl rfl rfl rfl rfl (fun _ => rfl) ?_, ?_⟩
+      · intro c
+        refine all_map (P := fun n => n.live = false) (fun n hn => ?_) c
+        simpa [ConfNtfn.unqueue] using hn
+      · simp only [hd1]
+        intro m hm
+        simp only [List.mem_map] at hm
+        obtain ⟨n, hn, rfl⟩ := hm
+        have := hfinal n hn
+        rw [confirmAt_noop (hnone' n hn)] at this
+        exact this
+    · simp only [hset, hd1]
+      have hnopanic : (r1.ntfns.any fun n =>
+          n.queuedAt.contains (cur + 1) && !n.dispatched && n.closed) = false := by
+        rw [List.any_eq_false]
+        intro n hn
+        obtain ⟨⟨h1, h2, h3, h4, h5, h6⟩, _⟩ := gq n hn
+        cases hl : n.live with
+        | false => simp [h5 hl]
+        | true => simp [h4 hl]
+      simp only [hnopanic, Bool.false_eq_true, ↓reduceIte]
+      refine ⟨g0.congr rfl hset.symm hd1.symm rfl rfl (fun _ => rfl) ?_, ?_⟩
+      · intro c m hm
+        simp only [List.mem_map] at hm
+        obtain ⟨n1, ⟨n, hn, rfl⟩, rfl⟩ := hm
+        have := c n hn
+        simp only [ConfNtfn.unqueue, ConfNtfn.confirmAt]
+        split <;> simp [ConfNtfn.sendConfirmed, this] <;> (split <;> simp [this])
+      · simp only [hd1]
+        intro m hm
+        simp only [List.mem_map] at hm
+        obtain ⟨n1, ⟨n, hn, rfl⟩, rfl⟩ := hm
+        exact hfinal n hn
+
+/-! ## the invariant is inductive -/
+
+def WInv (w : World) : Prop := RI w.cur w.limit w.maxTip w.cover w.chain w.r
+
+theorem drainR_key (r : ConfReq) : (drainR r).key = r.key := rfl
+
+theorem register_key (cur limit reg n hint : Nat) (r : ConfReq) :
+    (r.register cur limit reg n hint).1.key = r.key := by
+  unfold ConfReq.register ConfReq.registered ConfReq.addNtfn ConfReq.opened ConfReq.dispatchAll
+  split <;> (try split) <;> (try split) <;> (try split) <;> simp_all
+
+theorem cancel_key (reg : Nat) (r : ConfReq) : (r.cancel reg).key = r.key := by
+  unfold ConfReq.cancel; split <;> rfl
+
+theorem update_key (cur limit : Nat) (d : Option ConfDetails) (r : ConfReq) :
+    (r.update cur limit d).1.key = r.key := by
+  unfold ConfReq.update ConfReq.dispatchAll
+  split <;> (try split) <;> (try split) <;> (try split) <;> (try split) <;> simp_all
+
+theorem wstep_inv {w : World} {op : WOp} (h : WInv w) (hok : Ok w op) : WInv (wstep w op) := by
+  unfold WInv at *
+  cases op with
+  | register reg n hint =>
+    obtain ⟨h1, h2⟩ := hok
+    exact drainR_RI (register_pre h h1 h2)
+  | cancel reg => exact drainR_RI (cancel_pre h)
+  | update from_ d => exact drainR_RI (update_pre h hok)
+  | tip b =>
+    have hc := connect_pre (b := b) h hok
+    obtain ⟨hp, hch⟩ := drainR_RI hc
+    exact drainR_RI (notify_pre hp hch)
+  | untip =>
+    obtain ⟨h1, h2⟩ := hok
+    exact drainR_RI (disconnect_pre h h1 h2)
+
+/-- a freshly started notifier at height `chain0.length` that knows nothing about request `key` -/
+def World.init (key limit : Nat) (chain0 : List Block) : World :=
+  { cur := chain0.length, limit := limit, depth := 0, r := { key := key }, chain := chain0,
+    maxTip := chain0.length, cover := chain0.length + 1 }
+
+theorem init_inv (key limit : Nat) (chain0 : List Block) (hv : Valid chain0 key) :
+    WInv (World.init key limit chain0) := by
+  refine ⟨⟨⟨rfl, Nat.le_refl _, hv, rfl, fun _ => ⟨rfl, rfl, fun n hn => by simp [World.init] at hn⟩,
+    fun d hd => by simp [World.init] at hd, fun _ => rfl, fun hs => by simp [World.init] at hs⟩,
+    fun n hn => by simp [World.init] at hn⟩, fun n hn => by simp [World.init] at hn⟩
+
+/-- operation lists whose every operation satisfies the environment assumptions -/
+def OkRun : World → List WOp → Prop
+  | _, [] => True
+  | w, op :: rest => Ok w op ∧ OkRun (wstep w op) rest
+
+theorem run_inv {w : World} {ops : List WOp} (h : WInv w) (hok : OkRun w ops) :
+    WInv (ops.foldl wstep w) := by
+  induction ops generalizing w with
+  | nil => exact h
+  | cons op rest ih => exact ih (wstep_inv h hok.1) hok.2
+
+/-! ## consequences -/
+
+/-- only-if: a client that holds a confirmation (delivered, not retracted) — the request's details
+    name a block of the ACTIVE chain that contains the transaction. -/
+theorem inv_sound {w : World} (h : WInv w) {n : ConfNtfn} (hn : n ∈ w.r.ntfns)
+    (hl : n.live = true) (hd : n.dispatched = true) :
+    ∃ d, w.r.details = some d ∧ OnChain w.chain w.r.key d := by
+  obtain ⟨⟨h0, hcl⟩, _⟩ := h
+  have hc := (hcl n hn).2.2.2.2.2 hl
+  cases hdet : w.r.details with
+  | none => rw [hdet] at hc; rw [hc.1] at hd; cases hd
+  | some d => exact ⟨d, rfl, (h0.det d hdet).1⟩
+
+/-- if: the transaction is on the active chain at height `h`, the request has examined that
+    height (`cover ≤ h`), and it has `numConfs` confirmations — then every live client holds the
+    confirmation, with details at that height. -/
+theorem inv_complete {w : World} (h : WInv w) (hs : w.r.set = true) {hh : Nat} {b : Block}
+    (h1 : 1 ≤ hh) (hb : w.chain[hh - 1]? = some b) (hhas : b.has w.r.key) (hcov : w.cover ≤ hh)
+    {n : ConfNtfn} (hn : n ∈ w.r.ntfns) (hl : n.live = true) (hdeep : hh + n.numConfs ≤ w.cur + 1) :
+    n.dispatched = true ∧ ∃ d, w.r.details = some d ∧ d.height = hh ∧ OnChain w.chain w.r.key d := by
+  obtain ⟨⟨h0, hcl⟩, _⟩ := h
+  cases hdet : w.r.details with
+  | none => exact absurd hhas (h0.cov hs hdet hh b hcov h1 hb)
+  | some d =>
+    obtain ⟨hon, _, _⟩ := h0.det d hdet
+    obtain ⟨bd, hbd, hbdhas⟩ := hon.has
+    have heq := h0.valid (hh - 1) (d.height - 1) b bd hb hbd hhas hbdhas
+    have hle := hon.le
+    have hdh : d.height = hh := by omega
+    have hc := (hcl n hn).2.2.2.2.2 hl
+    rw [hdet] at hc
+    refine ⟨?_, d, rfl, hdh, hon⟩
+    cases hdd : n.dispatched with
+    | true => rfl
+    | false => have := (hc.2 hdd).2; omega
+
+/-- a client that does not hold a confirmation is queued exactly at its confirmation height,
+    which has not been reached yet (so it will be dispatched by that height's `NotifyHeight`). -/
+theorem inv_queued {w : World} (h : WInv w) {n : ConfNtfn} (hn : n ∈ w.r.ntfns)
+    (hl : n.live = true) {d : ConfDetails} (hdet : w.r.details = some d) (hd : n.dispatched = false) :
+    n.queuedAt = [d.height + n.numConfs - 1] ∧ w.cur < d.height + n.numConfs - 1 := by
+  obtain ⟨⟨h0, hcl⟩, _⟩ := h
+  have hc := (hcl n hn).2.2.2.2.2 hl
+  rw [hdet] at hc
+  exact hc.2 hd
+
+/-- no send ever blocks and nothing panics -/
+theorem inv_live {w : World} (h : WInv w) :
+    w.r.panicked = false ∧ ∀ n ∈ w.r.ntfns, n.stuck = false :=
+  ⟨h.1.1.nopanic, fun n hn => (h.1.2 n hn).1⟩
 
 end LndModel.C14
